@@ -377,7 +377,9 @@ func dfaFromRegexp(al *Alphabet, re *syntax.Regexp) (*DFA, error) {
 // Thompson simulation, cut behind the first accepting thread (a match of a higher-priority
 // thread discards every lower-priority alternative).  A state is accepting when its list
 // contains the accepting NFA state, so the language of the result is
-//   PM = { w : the match the engine selects on an input that starts with w can end at |w| }
+//
+//	PM = { w : the match the engine selects on an input that starts with w can end at |w| }
+//
 // and the match finally selected on an input is its longest prefix in PM that the run reaches.
 // L(PM) is a subset of the pattern's language; where they differ the order of alternatives
 // (or greediness) makes the engine stop earlier than the word.
@@ -647,8 +649,8 @@ func (d *DFA) shortest() (string, bool) {
 	return "", false
 }
 
-func (d *DFA) isEmpty() bool         { _, ok := d.shortest(); return !ok }
-func (d *DFA) acceptsEmpty() bool    { return d.acc[d.start] }
+func (d *DFA) isEmpty() bool      { _, ok := d.shortest(); return !ok }
+func (d *DFA) acceptsEmpty() bool { return d.acc[d.start] }
 func (d *DFA) accepts(s string) bool {
 	cur := d.start
 	for _, r := range s {
